@@ -16,7 +16,7 @@ def scan(d, where, keys, res, replay):
             probes += 1
             parts = v.split(":")
             fwd_refused = any(p.startswith("WALK-E") for p in parts)
-            if any(p.startswith(("COUNT", "DISAGREE", "WALK-X", "WALK2-X", "ACCEPTED", "X(")) for p in parts) or \
+            if any(p.startswith(("COUNT", "DISAGREE", "WALK-X", "WALK2-X", "WALK3-", "ACCEPTED", "X(")) for p in parts) or \
                     (any(p.startswith("WALK2-E") for p in parts) and not fwd_refused) or \
                     any(p not in ("E",) and not p.startswith(("n", "WALK-E", "WALK2-E")) for p in parts[1:]):
                 k = "probe:%s:%s" % (where, a)
